@@ -111,6 +111,15 @@ entry('hmac_outCT[64-byte block hashes]', 'br_hmac_outCT', [X(0), X(1), SEC('len
 entry('hmac_outCT[128-byte block hashes]', 'br_hmac_outCT', [X(0), X(1), SEC('len'), BOT, BOT, X(5)],
       {(0,): fields([(8, 136, 'hashbuf'), (144, 208, 'hashstate'), (208, 272, 'kso')]), (1,): whole('data')},
       ptr_rules={((0,), 0): ['br_sha384_vtable', 'br_sha512_vtable']})
+# ---- hash compression functions on secret blocks (HMAC keys, PRF secrets, the DRBG state all go through them) and the hash update /
+# output functions on secret data: the running byte count (offset 72 resp. 136) is public, buffer and state are secret
+entry('md5.round', 'br_md5_round', [X(0), X(1)], {(0,): whole('block'), (1,): whole('state')})
+entry('sha1.round', 'br_sha1_round', [X(0), X(1)], {(0,): whole('block'), (1,): whole('state')})
+entry('sha2small.round', 'br_sha2small_round', [X(0), X(1)], {(0,): whole('block'), (1,): whole('state')})
+entry('sha2big.round', ('hash__sha2big', 'sha2big_round'), [X(0), X(1)], {(0,): whole('block'), (1,): whole('state')})
+for hn, lo, hi in (('md5', 72, 96), ('sha1', 72, 100), ('sha224', 72, 112), ('sha384', 136, 208)):
+    entry('%s.update[secret data]' % hn, 'br_%s_update' % hn, [X(0), X(1), BOT], {(0,): fields([(8, lo, 'hashbuf'), (lo + 8, hi + 8, 'hashstate')]), (1,): whole('data')})
+    entry('%s.out[secret state]' % hn, 'br_%s_out' % hn, [X(0), X(1)], {(0,): fields([(8, lo, 'hashbuf'), (lo + 8, hi + 8, 'hashstate')])})
 AEAD_CTX = fields([(24, 24 + 240, 'enckey'), (284, 300, 'h')])
 for bcv in ('br_aes_ct_ctr_vtable', 'br_aes_ct64_ctr_vtable'):
     entry('rec_gcm.decrypt[%s]' % bcv[3:-11], ('ssl__ssl_rec_gcm', 'gcm_decrypt'), [X(0), BOT, BOT, X(3), X(4)],
